@@ -50,7 +50,7 @@ func genTGCase(rng *rand.Rand, idx int) TGCase {
 }
 
 func phaseTG(r *mon.Run) {
-	n := r.Pick(60, 600)
+	n := r.Pick(150, 1500)
 	par := 8
 	var wg sync.WaitGroup
 	sem := make(chan struct{}, par)
